@@ -371,3 +371,33 @@ Theorem C01_source_semantics_terminates_within_the_bound :
   forall P fuel args, sem_fuel_enough fuel P = true -> Sem.run_main fuel P args <> Sem.RunNoFuel.
 Proof. exact run_main_no_nofuel. Qed.
 Print Assumptions C01_source_semantics_terminates_within_the_bound.
+
+(* ------------------------------------------------------------------ the PARSER (src/parse.rs)
+   is part of "compile": Front/ParseExpr.v is a function-by-function model of the expression /
+   statement / pattern / type / match parser (tied to the real parser in C07 on expression texts
+   and function bodies).  [show_min] prints an expression tree with the MINIMAL parentheses that
+   Rust's precedence and associativity require; the model parser reads it back as the same tree,
+   in any context that ends the expression: the parser groups operators the way Rust does, for
+   trees of every size.  The compound assignments `x.acc op= v` are desugared to
+   `x.acc = (x.acc) op v` with the parsed target itself as left operand. *)
+From GV Require Import Front.Scan Front.ParseExpr Front.ParseExprProofs.
+
+Theorem C01_parser_reads_minimal_parentheses_as_the_tree : forall e, wf_expr e -> forall rest, stops true rest ->
+  exists fuel, parse_expr fuel (show_min e ++ rest) = Some (e, rest).
+Proof. exact parse_show_min. Qed.
+Print Assumptions C01_parser_reads_minimal_parentheses_as_the_tree.
+
+Theorem C01_parser_operator_after_if_chain : forall c t e' o y, wf_expr (UIf c t e') -> wf_expr y ->
+  forall b rest, stops b rest ->
+  exists fuel,
+    parse_expr_st fuel
+      (PState (show_min (UIf c t e') ++ tk (op_token o)
+                 :: show_at (if is_cmp o then 5 else S (op_level o))%nat true y ++ rest) b)
+    = POk (UOp o (UIf c t e') y) (PState rest b).
+Proof. exact operator_after_if_chain. Qed.
+Print Assumptions C01_parser_operator_after_if_chain.
+
+Theorem C01_parser_compound_assignment_target : forall e x accs,
+  accessors e = Some (x, accs) -> target_expr x accs = e.
+Proof. exact target_expr_accessors. Qed.
+Print Assumptions C01_parser_compound_assignment_target.
